@@ -2,10 +2,12 @@
 from __future__ import annotations
 
 import ast
+import re
 
 from sa.engine.callgraph import calls_in, resolve_call
 from sa.engine.cfg import normally_dominates
 from sa.engine.context import Ctx
+from sa.engine.guards import path_conditions
 from sa.engine.loader import anorm, AnalysisError, dotted, norm, short, walk_own, is_noise
 from sa.engine.loops import Intervals
 from sa.engine.nullness import M, N, Nullness, ann_optional
@@ -537,17 +539,89 @@ def _declared_charset_decodes(ctx, rep):
                             seeds.add(a.targets[0].id)
                             changed = True
                 clean = False
+                conditional = None
+                codec_names = {x.id for x in ast.walk(codec) if isinstance(x, ast.Name)}
                 for x in ast.walk(fi.node):
-                    if _is_surrogate_sanitiser(x) and any(isinstance(y, ast.Name) and y.id in seeds for y in ast.walk(x)):
-                        clean = True
-                    if isinstance(x, ast.Call) and (dotted(x.func) or "").split(".")[-1] in helpers and any(isinstance(y, ast.Name) and y.id in seeds for a in x.args for y in ast.walk(a)):
-                        clean = True
-                if clean:
+                    hit = (_is_surrogate_sanitiser(x) and any(isinstance(y, ast.Name) and y.id in seeds for y in ast.walk(x))) or \
+                          (isinstance(x, ast.Call) and (dotted(x.func) or "").split(".")[-1] in helpers and any(isinstance(y, ast.Name) and y.id in seeds for a in x.args for y in ast.walk(a)))
+                    if not hit:
+                        continue
+                    clean = True
+                    # the clean-up must not depend on how the document spells the codec: 'utf7', 'UTF_7', 'unicode-escape', 'csUnicode11UTF7'
+                    # all name the same decoders (codecs.lookup normalises them); a membership test on the raw name lets the aliases through
+                    conds, opaque, _ = path_conditions(fi.node, x)
+                    for cnd in [str(q) for q in conds] + list(opaque):
+                        if any(re.search(r"\b%s\b" % re.escape(v), cnd) for v in codec_names) and "codecs.lookup" not in cnd:
+                            conditional = cnd
+                if clean and conditional:
+                    rep.fail(Finding("C04-CHR", m.rel, fi.qual, "surrogate clean-up only for some spellings of the codec: " + conditional[:80], f"the surrogate clean-up after `{short(c, 50)}` runs only when `{conditional}`: the decision is taken on the name as the document spells it, and the aliases of the same decoders ('utf7', 'UTF_7', 'unicode-escape', 'csUnicode11UTF7') skip it -- the text then holds lone surrogates and .encode('utf-8') raises", line=c.lineno))
+                elif clean:
                     rep.ok({"decode": f"{fi.qual}: {short(c, 50)}", "codec": "declared by the document", "sanitised": True})
                 else:
                     rep.fail(Finding("C04-CHR", m.rel, fi.qual, "declared charset decoded without surrogate clean-up: " + anorm(c, fi.node), f"`{short(c, 60)}` decodes with a codec the document names; utf-7 ('+2D0-'), unicode_escape and raw_unicode_escape decode to lone surrogates, and nothing replaces them before the text is returned: get_full_text().encode('utf-8') raises", line=c.lineno))
     if n < 6:
         raise AnalysisError(f"C04-CHR: only {n} decode sites with a computed codec name found (6 confirmed)")
+    _sanitiser_integrity(ctx, rep)
+
+
+def _covers_all_surrogates(test: ast.AST, param: str, ctx, m) -> bool:
+    """`test` is true only if `param` holds no code point in U+D800..U+DFFF (so returning it unchanged is safe)."""
+    t = test
+    if not (isinstance(t, ast.UnaryOp) and isinstance(t.op, ast.Not)):
+        # text.isascii()
+        return isinstance(t, ast.Call) and isinstance(t.func, ast.Attribute) and t.func.attr == "isascii" and norm(t.func.value) == param
+    t = t.operand
+    # not any(LO <= ch <= HI for ch in text)
+    if isinstance(t, ast.Call) and isinstance(t.func, ast.Name) and t.func.id == "any" and t.args and isinstance(t.args[0], ast.GeneratorExp):
+        g = t.args[0]
+        if len(g.generators) == 1 and norm(g.generators[0].iter) == param and isinstance(g.elt, ast.Compare) and len(g.elt.ops) == 2 and all(isinstance(o, ast.LtE) for o in g.elt.ops):
+            lo, hi = g.elt.left, g.elt.comparators[1]
+            if isinstance(lo, ast.Constant) and isinstance(hi, ast.Constant) and isinstance(lo.value, str) and isinstance(hi.value, str) and len(lo.value) == 1 and len(hi.value) == 1:
+                return ord(lo.value) <= 0xD800 and ord(hi.value) >= 0xDFFF
+        return False
+    # not PATTERN.search(text) with PATTERN one character class
+    if isinstance(t, ast.Call) and isinstance(t.func, ast.Attribute) and t.func.attr == "search" and t.args and norm(t.args[0]) == param and isinstance(t.func.value, ast.Name):
+        node = m.assigns.get(t.func.value.id)
+        pat = ctx.folder.fold(m, node.args[0]) if isinstance(node, ast.Call) and node.args else None
+        if isinstance(pat, str):
+            try:
+                import re._parser as sp  # type: ignore
+
+                items = list(sp.parse(pat))
+            except Exception:
+                return False
+            if len(items) == 1 and str(items[0][0]) == "IN":
+                covered = set()
+                for o, v in items[0][1]:
+                    if str(o) == "RANGE":
+                        covered |= set(range(max(v[0], 0xD800), min(v[1], 0xDFFF) + 1))
+                    elif str(o) == "LITERAL" and 0xD800 <= v <= 0xDFFF:
+                        covered.add(v)
+                return len(covered) == 0x800
+    return False
+
+
+def _sanitiser_integrity(ctx, rep):
+    """A function that ends in the surrogate sanitiser may return its argument untouched only when it has tested that the argument holds
+    no surrogate at all (high *and* low: a lone low surrogate is as unencodable as a lone high one)."""
+    for m in ctx.p.modules.values():
+        if "/tests/" in m.rel or not m.rel.startswith(X):
+            continue
+        for fi in m.functions.values():
+            rets = [r for r in walk_own(fi.node) if isinstance(r, ast.Return) and r.value is not None]
+            if not any(_is_surrogate_sanitiser(r.value) for r in rets) or not fi.node.args.args:
+                continue
+            params = {a.arg for a in fi.node.args.args}
+            for r in rets:
+                if _is_surrogate_sanitiser(r.value) or not (isinstance(r.value, ast.Name) and r.value.id in params):
+                    continue
+                decider = next((i for i in walk_own(fi.node) if isinstance(i, ast.If) and r in i.body), None)
+                rep.unit(fi.key)
+                if decider is not None and _covers_all_surrogates(decider.test, r.value.id, ctx, m):
+                    rep.ok({"sanitiser": fi.qual, "fast_path_when": short(decider.test, 70)})
+                else:
+                    rep.fail(Finding("C04-CHR", m.rel, fi.qual, "fast path of the surrogate clean-up: " + (anorm(decider.test, fi.node) if decider is not None else "unconditional"),
+                                     f"{fi.qual} returns its argument unchanged when `{short(decider.test, 60) if decider is not None else 'always'}`, which does not exclude every code point of U+D800..U+DFFF: a lone low surrogate (\\u-8704 in RTF) passes the clean-up and the text cannot be encoded as UTF-8", line=r.lineno))
 
 
 def _passes_normaliser(fi, chr_call) -> bool:
